@@ -28,8 +28,8 @@ from .common import MachineryError
 
 LEVEL = "model_checking"
 TLC_WORKERS = 8
-MC_REPLAY_QUICK = 8000
-JAVA_ENV = {"JAVA_TOOL_OPTIONS": "-Xss32m"}   # deep (but finite) recursion of the interpreter on long programs
+MC_REPLAY_QUICK = 5000
+JAVA_ENV = {"JAVA_TOOL_OPTIONS": "-Xss32m -XX:ParallelGCThreads=6"}   # deep (but finite) recursion of the interpreter on long programs
 
 RAW_BEFORE = ("callsubr", "callgsubr", "blend", "vsindex")
 FUNC_DW, FUNC_NW = 7, 3  # Private widths used when a bare program is drawn through the pen
@@ -74,6 +74,8 @@ def _isnum(t):
 
 def _bits(x):
     """fractional bits of a number (every float is dyadic); > 16 means not a 16.16 operand"""
+    if isinstance(x, int):
+        return 0
     d = Fraction(x).denominator
     b = d.bit_length() - 1
     if d != 1 << b:
@@ -90,9 +92,11 @@ def exec_sum(p, ls, gs, nls, ngs, depth=0, memo=None):
     bounds every coordinate the machine can reach.  Pure data sizing, no semantics."""
     if depth > 10:
         raise Skip("subroutine nesting > 10")
-    s = Fraction(0)
+    s = 0
     for i, t in enumerate(p):
-        if _isnum(t):
+        if isinstance(t, int) and not isinstance(t, bool):
+            s += abs(t)
+        elif _isnum(t):
             s += abs(Fraction(t))
         elif t in ("callsubr", "callgsubr"):
             if i == 0 or not isinstance(p[i - 1], int):
@@ -119,6 +123,8 @@ def to_tokens(p, k):
                 if int(t) != t:
                     raise Skip("non-integer control operand")
                 v = int(t)
+            elif isinstance(t, int):
+                v = t << k
             else:
                 v = int(Fraction(t) * (1 << k))
             if abs(v) >= OPBASE:
@@ -498,7 +504,20 @@ OUT_SPEC = {  # rewriting -> judge parameters
 }
 
 
-def font_traces(data, label, rng, want=None, with_subr=True, func_sample=None, pen=True, cap=None):
+REWRITE_ORDER = ["desubroutinize", "remove_hints", "recompile", "subroutinize", "cff-to-cff2", "cff2-to-cff-pre",
+                 "cff2-to-cff"]
+PARTS = {"base": {"desubroutinize"}, "hints": {"remove_hints", "recompile"}, "subr": {"subroutinize"},
+         "chain": {"cff-to-cff2", "cff2-to-cff", "cff2-to-cff-pre"}}
+
+
+def keep_indices(label, n, cap):
+    """the glyph indices of a font that this tier looks at (all of them when cap is None)"""
+    if cap is None or n <= cap:
+        return set(range(n))
+    return set([0] + _rng_for(_CTX["seed"], "keep", label).sample(range(1, n), cap - 1))
+
+
+def font_traces(data, label, rng, want=None, with_subr=True, func_sample=None, pen=True, cap=None, pre=None):
     """all traces of one font: one font-level trace per glyph and one function-level trace
     per glyph on its desubroutinised program.  returns (traces, skips{reason: n}, notes)"""
     skips = {}
@@ -506,24 +525,25 @@ def font_traces(data, label, rng, want=None, with_subr=True, func_sample=None, p
     def skip(r, n=1):
         skips[r] = skips.get(r, 0) + n
 
-    orig, rew, adv = font_rewrites(data, want, with_subr)
+    orig, rew, adv = pre if pre is not None else font_rewrites(data, want, with_subr)
+    rew = {k: rew[k] for k in REWRITE_ORDER if k in rew}
     traces = []
     notes = {}
     for name, res in rew.items():
         if isinstance(res, Exception):
             notes[name] = repr(res)[:200]
-    variable = any(sd["rg"] for _n, sd in orig if isinstance(sd, dict))
+    variable = any(sd["rg"] for _n, sd in [x for x in orig if x] if isinstance(sd, dict))
     after = {}
     for name, res in rew.items():
         if isinstance(res, list):
             after[name] = res
-    keep = set(range(len(orig)))
-    if cap is not None and len(orig) > cap:
-        keep = set([0] + rng.sample(range(1, len(orig)), cap - 1))
+    keep = keep_indices(label, len(orig), cap)
+    if len(keep) < len(orig):
         skip("glyph not in this tier's sample of a big font", len(orig) - len(keep))
-    for gi, (gname, sd) in enumerate(orig):
-        if gi not in keep:
+    for gi, entry in enumerate(orig):
+        if gi not in keep or entry is None:
             continue
+        gname, sd = entry
         if not isinstance(sd, dict):
             skip("input: " + sd)
             continue
@@ -538,7 +558,7 @@ def font_traces(data, label, rng, want=None, with_subr=True, func_sample=None, p
                     continue
                 outs.append(mk_raised(rname, res))
                 continue
-            if gi >= len(res):
+            if gi >= len(res) or res[gi] is None:
                 outs.append(mk_raised(rname, KeyError("glyph missing after rewriting")))
                 continue
             n2, sd2 = res[gi]
@@ -564,6 +584,8 @@ def font_traces(data, label, rng, want=None, with_subr=True, func_sample=None, p
             idxs = sorted(rng.sample(idxs, func_sample))
             skip("function-level rewritings: glyph not in this tier's sample of a big font", len(des) - len(idxs))
         for gi in idxs:
+            if des[gi] is None:
+                continue
             gname, sd = des[gi]
             if not isinstance(sd, dict):
                 continue
@@ -776,8 +798,6 @@ def build_font(glyphs, dw, nw, rng, subr_prob=0.7, pad_subrs=0):
     from fontTools.cffLib import SubrsIndex
 
     lpool, gpool = SubrPool(), SubrPool()
-    for _ in range(pad_subrs):
-        gpool.add([_ - 600, "return"])
     progs = []
     for p, _adv in glyphs:
         q = list(p)
@@ -786,6 +806,12 @@ def build_font(glyphs, dw, nw, rng, subr_prob=0.7, pad_subrs=0):
             if rng.random() < 0.3:
                 q = subrize(q, rng, lpool, gpool)
         progs.append(q)
+    if pad_subrs:
+        # filler global subroutines up to exactly pad_subrs: the bias changes at 1240 / 33900 subroutines
+        k = 0
+        while len(gpool.items) < pad_subrs:
+            gpool.add([k - 700, "return"])
+            k += 1
     nl, ng = len(lpool.items), len(gpool.items)
     progs = [patch_refs(q, nl, ng) for q in progs]
     lsub = [patch_refs(q, nl, ng) for q in lpool.items]
@@ -884,12 +910,25 @@ def _work_corpus_load(path):
         return [], "corpus file does not load/compile: %s" % type(e).__name__
 
 
+def _work_font_part(item):
+    """(label, data, part, cap) -> (orig | None, rew, adv) with only this tier's glyphs kept"""
+    label, data, part, cap = item
+    try:
+        orig, rew, adv = font_rewrites(data, want=PARTS[part])
+    except Exception as e:
+        return ("error", "%s: %s" % (type(e).__name__, str(e)[:100]))
+    keep = keep_indices(label, len(orig), cap)
+    thin = lambda lst: [x if i in keep else None for i, x in enumerate(lst)]
+    rew = {k: (thin(v) if isinstance(v, list) else v) for k, v in rew.items()}
+    return (thin(orig) if part == "base" else None, rew, adv if part == "base" else None)
+
+
 def _work_corpus(item):
-    label, data, cap, func_sample = item
+    label, data, cap, func_sample, pre = item
     rng = _rng_for(_CTX["seed"], "corpus", label)
     skips, notes = {}, {}
     try:
-        tr, skips, nt = font_traces(data, label, rng, func_sample=func_sample, cap=cap)
+        tr, skips, nt = font_traces(data, label, rng, func_sample=func_sample, cap=cap, pre=pre)
     except Skip as e:
         return [], {"font: " + str(e): 1}, {}
     except Exception as e:
@@ -1060,7 +1099,7 @@ def run(chk):
     n_mc = len(items)
 
     # ---- grammar-generated random programs ----------------------------------------------
-    n_rand = 40000 if thorough else 2500
+    n_rand = 40000 if thorough else 2000
     n_cff2 = 12000 if thorough else 700
     rand_built = []
     for i in range(n_rand):
@@ -1113,7 +1152,7 @@ def run(chk):
         nw = rng.choice([0, 0, 3, 500, 560])
         dw = rng.choice([0, 5, 500, 601, nw, nw + 5])
         # re-base widths so that (a) some glyphs sit exactly on defaultWidthX, (b) explicit ones spread
-        pad = 1300 if (i % 23 == 5) else 0   # cross the 1240-subroutine bias boundary now and then
+        pad = (1239, 1240, 1241)[i % 3] if (i % 10 == 5) else 0   # the subroutine bias changes at 1240
         fonts.append((i, gl, dw, nw, pad))
     t0 = time.time()
     res = common.pmap(_work_built, fonts)
@@ -1140,7 +1179,8 @@ def run(chk):
                 head = fh.read(400000)
         except OSError:
             continue
-        if (b"<CFF2>" in head or b"<CFF>" in head) and b"<ttFont" in head[:600] and b"<GlyphOrder>" in head:
+        # quick tier: TTX sources only for CFF2 (the binaries cover CFF); thorough: every TTX font with CFF/CFF2
+        if (b"<CFF2>" in head or (thorough and b"<CFF>" in head)) and b"<ttFont" in head[:600] and b"<GlyphOrder>" in head:
             paths.append(pth)
     t0 = time.time()
     loaded = common.pmap(_work_corpus_load, paths)
@@ -1151,8 +1191,25 @@ def run(chk):
         for key, data in fonts_:
             nfonts += 1
             distinct.setdefault(key, (common.rel(pth), data))
-    cap = None if thorough else 100
-    work = [(label, data, cap, cap) for _k, (label, data) in sorted(distinct.items(), key=lambda kv: kv[1][0])]
+    cap = None if thorough else 60
+    chk.log("corpus: loaded %d files in %.1fs" % (len(paths), time.time() - t0))
+    fonts_ = sorted(distinct.values(), key=lambda kv: kv[0])
+    # phase A: every (font, group of rewritings) pair in its own worker; phase B: assemble and run the
+    # function-level rewritings per font
+    part_items = [(label, data, part, cap) for label, data in fonts_ for part in ("base", "hints", "subr", "chain")]
+    part_res = common.pmap(_work_font_part, part_items)
+    chk.log("corpus: %d (font, rewriting group) parts done at %.1fs" % (len(part_items), time.time() - t0))
+    work = []
+    for fi, (label, data) in enumerate(fonts_):
+        rs = part_res[4 * fi:4 * fi + 4]
+        bad = [r for r in rs if r[0] == "error"]
+        if bad:
+            chk.skip("corpus: font cannot be taken apart by the harness (%s)" % bad[0][1].split(":")[0])
+            continue
+        rew = {}
+        for r in rs:
+            rew.update(r[1])
+        work.append((label, None, cap, cap, (rs[0][0], rew, rs[0][2])))
     res = common.pmap(_work_corpus, work)
     traces = []
     for tr, sk, notes in res:
@@ -1218,7 +1275,7 @@ def replay(chk, rep):
         path = os.path.join(os.path.dirname(common.TESTS), meta["font"])
         fonts_, _why = _work_corpus_load(path)
         for _key, data in fonts_:
-            tr, _sk, _nt = _work_corpus((meta["font"], data, None, None))
+            tr, _sk, _nt = _work_corpus((meta["font"], data, None, None, None))
             traces += [t for t in tr if t["meta"].get("glyph") == meta.get("glyph") and t["meta"].get("kind") == meta["kind"]]
     if not traces:
         tr = dict(r["trace"])
